@@ -25,6 +25,7 @@ CorruptionsOf(c) ==
   \cup {[kind |-> "pub", col |-> 0, row |-> 0, delta |-> 1, idx |-> i] : i \in 0..3}
   \cup (IF HasAux(c)
           THEN {[kind |-> "aux", col |-> m, row |-> r, delta |-> 1, idx |-> 0] : m \in 0..(c.aux[1].width - 1), r \in RowClasses(c)}
+               \cup {[kind |-> "auxscale", col |-> m, row |-> 0, delta |-> 2, idx |-> 0] : m \in 0..(c.aux[1].width - 1)}
           ELSE {})
 Classified(c) == {x \in CorruptionsOf(c) : CertainUnsat(c, x) \/ CertainSat(c, x)}
 
@@ -66,6 +67,19 @@ Layouts == <<
   <<SeqA(0, 0, 8, 2), SeqA(1, 0, 2, 8)>> >>
 FixedShapes == <<"sum", "mul2", "pcol">>
 FixedCfgs == {LayoutBase(FixedShapes, e, Layouts[i]) : e \in {2, 3, 4}, i \in 1..Len(Layouts)}
+\* second fixed family: more transition constraints than columns (duplicated leading constraints), and
+\* auxiliary segments with more auxiliary than main assertions; every cell / aux column is corrupted
+ExtraCfgs ==
+  { [LayoutBase(<<"sum", "mul2", "cube">>, 1, <<Single(0, 0)>>) EXCEPT !.extra = x, !.aux = ax, !.ext = e, !.cbatch = cb]
+      : x \in {<<0>>, <<2, 0>>, <<1, 1, 1>>},
+        ax \in {<<>>, <<[width |-> 3, rands |-> 1, src |-> <<0, 1, 2>>]>>},
+        e \in {1, 2}, cb \in {0, 1} }
+ExtraCases ==
+  UNION { {<<c, [kind |-> "cell", col |-> j, row |-> r, delta |-> 1, idx |-> 0]>> : j \in 0..(c.width - 1), r \in {1, L(c) \div 2}}
+          \cup (IF HasAux(c) THEN {<<c, [kind |-> "auxscale", col |-> m, row |-> 0, delta |-> 2, idx |-> 0]>> : m \in 0..(c.aux[1].width - 1)}
+                             \cup {<<c, [kind |-> "aux", col |-> m, row |-> 1, delta |-> 1, idx |-> 0]>> : m \in 0..(c.aux[1].width - 1)}
+                 ELSE {})
+          : c \in {f \in ExtraCfgs : Supported(f)} }
 \* asserted cells in the exempt rows
 FreeAsserted(c) == {x \in AllAssertedCells(c) : x[2] > L(c) - c.exemptions}
 FixedCases ==
@@ -73,8 +87,8 @@ FixedCases ==
           : c \in {f \in FixedCfgs : Supported(f)} }
 CaseOfPair(pr) ==
   [desc |-> DescJson(pr[1]),
-   opts |-> [queries |-> pr[1].queries, blowup |-> pr[1].blowup, grind |-> 0, ext |-> 1, fold |-> pr[1].fold,
-             rem |-> pr[1].rem, cbatch |-> 0, dbatch |-> 0, parts |-> 1, hash_rate |-> 1],
+   opts |-> [queries |-> pr[1].queries, blowup |-> pr[1].blowup, grind |-> 0, ext |-> pr[1].ext, fold |-> pr[1].fold,
+             rem |-> pr[1].rem, cbatch |-> pr[1].cbatch, dbatch |-> 0, parts |-> 1, hash_rate |-> 1],
    field |-> "f64", hash |-> "blake3_256", garbage |-> 0, corrupt |-> pr[2],
    expect |-> IF CertainUnsat(pr[1], pr[2]) THEN "reject" ELSE "accept"]
 FixedOk == \A pr \in FixedCases : CertainUnsat(pr[1], pr[2])
